@@ -254,6 +254,26 @@ func propC04(o *out, r *rng, thorough bool) {
 			c04One(o, w, ps, "witness")
 		}
 	}
+	// lengths at which a fixed buffer would end: names, strings, numbers, comments, regexes, argument lists
+	for _, n := range []int{15, 16, 17, 31, 32, 33, 63, 64, 65, 127, 128, 129, 255, 256, 257, 4095, 4096, 4097} {
+		for _, unit := range []string{"a", "é", "Ⱥ", "_"} {
+			if n > 300 && unit != "a" {
+				continue
+			}
+			id := strings.Repeat(unit, n)
+			c04One(o, "SELECT "+id+" FROM "+id+"."+id+"."+id+" WHERE "+id+" = '"+id+"' GROUP BY "+id, nil, "length")
+			c04One(o, "SELECT \""+id+"\" AS \""+id+"\" FROM m WHERE x =~ /"+id+"/ -- "+id, nil, "length")
+			c04One(o, "DROP MEASUREMENT "+id+" "+id, nil, "length")
+			c04One(o, "SELECT $"+id+" FROM m", map[string]interface{}{id: id}, "length")
+		}
+		if n > 300 {
+			continue
+		}
+		c04One(o, "SELECT "+strings.Repeat("9", n)+" FROM m LIMIT "+strings.Repeat("0", n)+"1", nil, "length")
+		c04One(o, "SELECT 0."+strings.Repeat("9", n)+", 1"+strings.Repeat("0", n)+".5 FROM m", nil, "length")
+		c04One(o, "SELECT f("+strings.Repeat("a, ", n)+"a) FROM m /* "+strings.Repeat("*", n)+" */", nil, "length")
+		c04One(o, "SELECT a"+strings.Repeat(", a", n)+" FROM m"+strings.Repeat(", m", n), nil, "length")
+	}
 	// nesting and length
 	depths := []int{10, 100, 1000}
 	if thorough {
